@@ -1219,3 +1219,167 @@ Proof.
   destruct (h_votes hd) as [|v vs]; [injection H as <- <-; auto|].
   destruct (process_votes _ _ _ _) as [[l3 issued]|e|p]; injection H as <- <-; auto.
 Qed.
+
+(* ================================================================== F4: the EVM path *)
+(* Oracle hypothesis on an observed effect (the interpreter is trusted, see DESIGN C17): the
+   touched accounts are listed once with in-range balances, gas used does not exceed the limit,
+   and what the touched accounts lose in total is exactly gas used x price plus a non-negative
+   amount [burn] destroyed by the contract semantics (SELFDESTRUCT to self and the like). *)
+Definition evm_effect_fee_ok (l : ledgers) (t : tx) (price : Z) (e : evm_effect) (burn : Z) : Prop :=
+  NoDup ((fun x : addr * Z * Z => x.1.1) <$> e_accts e) /\
+  0 <= e_gas e <= t_gas t /\
+  (forall x, x ∈ e_accts e -> 0 <= x.1.2 < two256) /\
+  0 <= burn /\
+  sumZ_with (fun x : addr * Z * Z => x.1.2 - bal_of l x.1.1) (e_accts e) = - (e_gas e * price) - burn.
+
+(* C16 on the EVM path: gas used is what the interpreter reports (never above the limit under the
+   oracle hypothesis) and the fee sum grows by gas used x price; the balance side is
+   [deliver_evm_supply] in InvSupply.v *)
+Theorem deliver_evm_gas s t s' g :
+  deliver s t = (s', Ok g) -> ~ native s t ->
+  exists e, t_evm t = Some e /\ e_ok e = true /\ g = e_gas e /\
+    b_feesum (bctx s') = add256 (b_feesum (bctx s)) (mul256 (e_gas e) (g_gasPrice (gparams s))) /\
+    (forall burn, evm_effect_fee_ok (work s) t (g_gasPrice (gparams s)) e burn -> 0 <= g <= t_gas t).
+Proof.
+  intros Hd Hn. pose proof (deliver_feesum _ _ _ _ Hd) as Hfs. cbv iota in Hfs.
+  apply deliver_ok_inv in Hd as (sender & lim' & _ & _ & _ & _ & Hd). cbv zeta in Hd.
+  rewrite receiver_of_eq in Hd. unfold native in Hn.
+  destruct (evm_path_of t (acct_of (work s) (t_to t))); [|contradiction Hn; reflexivity].
+  destruct Hd as (l' & He & _). unfold evm_execute in He.
+  destruct (t_evm t) as [e|]; [|discriminate].
+  destruct (e_ok e) eqn:Eok; [|discriminate]. cbn [negb] in He. injection He as _ <-.
+  exists e. repeat split; try assumption; try reflexivity; destruct H as (_ & Hg & _); lia.
+Qed.
+Print Assumptions deliver_evm_gas.
+
+(* ================================================================== F6: the fee sum of a whole block *)
+Fixpoint deliver_all (s : state) (txs : list tx) : state * list (res Z) :=
+  match txs with
+  | [] => (s, [])
+  | t :: r => let '(s1, x) := deliver s t in let '(s2, xs) := deliver_all s1 r in (s2, x :: xs)
+  end.
+
+(* fee of one delivery result at a given price: gas used x price for a success, nothing otherwise *)
+Definition fee_of_result (price : Z) (r : res Z) : Z := match r with Ok g => mul256 g price | _ => 0 end.
+Definition block_fees (price : Z) (rs : list (res Z)) : Z := sumZ_with (fee_of_result price) rs.
+
+Lemma deliver_all_srun s txs : (deliver_all s txs).1 = srun s (map SDeliver txs).
+Proof.
+  revert s. induction txs as [|t txs IH]; intros s; [reflexivity|].
+  cbn [deliver_all map]. unfold srun in *. cbn [foldl sstep].
+  destruct (deliver s t) as [s1 x]. cbn [fst]. rewrite <- IH. destruct (deliver_all s1 txs). reflexivity.
+Qed.
+
+Lemma deliver_all_feesum txs : forall s acc,
+  b_feesum (bctx s) = wrap256 acc ->
+  let '(s2, rs) := deliver_all s txs in
+  b_feesum (bctx s2) = wrap256 (acc + block_fees (g_gasPrice (gparams s)) rs) /\
+  gparams s2 = gparams s /\ b_proposer (bctx s2) = b_proposer (bctx s) /\ b_height (bctx s2) = b_height (bctx s).
+Proof.
+  induction txs as [|t txs IH]; intros s acc Hacc; cbn [deliver_all].
+  - unfold block_fees. cbn. rewrite Z.add_0_r. auto.
+  - destruct (deliver s t) as [s1 x] eqn:Ed.
+    destruct (deliver_bctx _ _ _ _ Ed) as (Hh & Hp & Hf & Hg & _).
+    assert (Hacc1 : b_feesum (bctx s1) = wrap256 (acc + fee_of_result (g_gasPrice (gparams s)) x)).
+    { rewrite Hf, Hacc. destruct x as [g|e|p]; cbn [fee_of_result].
+      - unfold add256, wrap256. rewrite Z.add_mod_idemp_l by (pose proof two256_pos; lia). reflexivity.
+      - rewrite Z.add_0_r. reflexivity.
+      - rewrite Z.add_0_r. reflexivity. }
+    specialize (IH s1 _ Hacc1). destruct (deliver_all s1 txs) as [s2 xs].
+    destruct IH as (I1 & I2 & I3 & I4). rewrite Hg in I1.
+    unfold block_fees in *. rewrite I1.
+    change (sumZ_with ?f (x :: xs)) with (f x + sumZ_with f xs).
+    split; [f_equal; lia|]. split; [congruence|]. split; congruence.
+Qed.
+
+Lemma begin_block_gparams s hd : gparams (begin_block s hd).1 = gparams s.
+Proof.
+  unfold begin_block. destruct (negb (h_height hd =? last_height s + 1)); [reflexivity|]. cbv zeta.
+  destruct (h_votes hd); [reflexivity|]. destruct (process_votes _ _ _ _) as [[l3 i]|e|pp]; reflexivity.
+Qed.
+
+(* C16, a whole block: after BeginBlock and the deliveries the fee sum EndBlock will pay out is
+   the sum of gas used x governance price over the successful deliveries (modulo 2^256, and
+   exactly when that sum is below 2^256) *)
+Theorem block_feesum s hd txs :
+  h_height hd = last_height s + 1 ->
+  let s1 := (begin_block s hd).1 in
+  let '(s2, rs) := deliver_all s1 txs in
+  s2 = srun s ([SBegin hd] ++ map SDeliver txs) /\
+  b_proposer (bctx s2) = h_proposer hd /\
+  b_feesum (bctx s2) = wrap256 (block_fees (g_gasPrice (gparams s)) rs) /\
+  (block_fees (g_gasPrice (gparams s)) rs < two256 -> b_feesum (bctx s2) = block_fees (g_gasPrice (gparams s)) rs).
+Proof.
+  intros Hh. cbv zeta.
+  destruct (begin_block s hd) as [s1 r1] eqn:Eb. cbn [fst].
+  destruct (begin_block_feesum _ _ _ _ Eb Hh) as (Hf0 & Hp0 & _).
+  assert (Hg1 : gparams s1 = gparams s) by (pose proof (begin_block_gparams s hd) as H; rewrite Eb in H; exact H).
+  assert (Hacc : b_feesum (bctx s1) = wrap256 0) by (rewrite Hf0; reflexivity).
+  pose proof (deliver_all_feesum txs s1 0 Hacc) as Hall. pose proof (deliver_all_srun s1 txs) as Hrun.
+  destruct (deliver_all s1 txs) as [s2 rs]. destruct Hall as (I1 & _ & I3 & _). cbn [fst] in Hrun.
+  rewrite Hg1, Z.add_0_l in I1.
+  split; [|split; [congruence|split; [exact I1|]]].
+  - rewrite Hrun. unfold srun. cbn [app foldl sstep]. rewrite Eb. reflexivity.
+  - intros Hlt. rewrite I1. apply wrap256_small. split; [|exact Hlt].
+    apply sumZ_with_nonneg. intros [g|e|p]; cbn; [apply mul256_range|lia|lia].
+Qed.
+Print Assumptions block_feesum.
+
+(* ================================================================== examples: the hypotheses are satisfiable *)
+Lemma bal_range_decide l :
+  bool_decide (map_Forall (fun (_ : addr) (x : account) => 0 <= a_bal x < two256) (accts l)) = true -> bal_range l.
+Proof. intros H. apply bool_decide_eq_true in H. intros a x Hx. apply (H a x Hx). Qed.
+
+Lemma ranges_ok_decide l :
+  bool_decide (map_Forall (fun (_ : addr) (x : account) => 0 <= a_bal x < two256 /\ 0 <= a_nonce x < two64) (accts l)) = true ->
+  bool_decide (Forall (fun s => 0 <= s_power s < two63) (bonded_stakes l ++ frozen_stakes l)) = true ->
+  bool_decide (map_Forall (fun (_ : addr) (r : reward) => 0 <= r_cumulated r < two256) (rewards l)) = true ->
+  ranges_ok l.
+Proof.
+  intros H1 H2 H3. apply bool_decide_eq_true in H1, H2, H3. split; [|split].
+  - intros a x Hx. apply (H1 a x Hx).
+  - intros s Hs. rewrite Forall_forall in H2. apply (H2 s Hs).
+  - intros a r Hr. apply (H3 a r Hr).
+Qed.
+
+Ltac zclosed := repeat split; vm_compute; congruence.
+
+Definition ex_transfer : tx := demo_tx TRX_TRANSFER 1%N 2%N (5 * amountPerPower) 4000 0 PNone 100%N.
+Definition ex_transfer2 : tx := demo_tx TRX_TRANSFER 2%N 3%N amountPerPower 5000 0 PNone 101%N.
+Definition ex_staking : tx := demo_tx TRX_STAKING 3%N 11%N (20 * amountPerPower) 4000 0 PNone 102%N.
+Definition ex_bad : tx := demo_tx TRX_TRANSFER 1%N 2%N amountPerPower 4000 7 PNone 103%N.   (* wrong nonce *)
+
+(* a transfer on the demo chain: all hypotheses of [deliver_native_balances] hold, and the
+   theorem yields the concrete numbers *)
+Example ex_transfer_cost :
+  let s := demo_s1 in let t := ex_transfer in
+  exists s', deliver s t = (s', Ok 4000) /\ native s t /\ tx_wf t /\ payload_wf t /\ ranges_ok (work s) /\
+    t_price t = g_gasPrice (gparams s) /\
+    bal_of (work s') 1%N = 1000 * amountPerPower - 40000 - 5 * amountPerPower /\
+    bal_of (work s') 2%N = 1000 * amountPerPower + 5 * amountPerPower /\
+    b_feesum (bctx s') = 40000.
+Proof.
+  cbv zeta. eexists. split; [vm_compute; reflexivity|].
+  split; [vm_compute; reflexivity|]. split; [zclosed|]. split; [intros req H; discriminate H|].
+  split; [apply ranges_ok_decide; vm_compute; reflexivity|].
+  split; [reflexivity|]. split; [vm_compute; reflexivity|]. split; vm_compute; reflexivity.
+Qed.
+
+(* a block with three successful deliveries and a failed one: the fee sum of [block_feesum],
+   and the proposer's credit of [end_block_proposer_credit] *)
+Example ex_block :
+  let s0 := init_chain demo_genesis in
+  let hd := demo_hdr 1 (Some 11%N) in
+  let txs := [ex_transfer; ex_bad; ex_transfer2; ex_staking] in
+  let s2 := srun s0 ([SBegin hd] ++ map SDeliver txs) in
+  h_height hd = last_height s0 + 1 /\
+  (deliver_all (begin_block s0 hd).1 txs).2 = [Ok 4000; Err E_NONCE; Ok 5000; Ok 4000] /\
+  b_feesum (bctx s2) = (4000 + 5000 + 4000) * 10 /\
+  bal_range (work s2) /\ b_proposer (bctx s2) = Some 11%N /\ 0 < b_feesum (bctx s2) < two255 /\
+  exists s3 ups, end_block s2 = (s3, Ok ups) /\
+    bal_of (work s3) 11%N = bal_of (work s2) 11%N + 130000.
+Proof.
+  cbv zeta. split; [reflexivity|]. split; [vm_compute; reflexivity|]. split; [vm_compute; reflexivity|].
+  split; [apply bal_range_decide; vm_compute; reflexivity|]. split; [vm_compute; reflexivity|].
+  split; [zclosed|]. eexists. eexists. split; [vm_compute; reflexivity|]. vm_compute. reflexivity.
+Qed.
